@@ -1,8 +1,9 @@
 (* C03 — per-case judge used by generated case files.
    One case = one primitive (op), one generated value or length prefix, and what the real
    util.WriteX / util.ReadX were observed to do on it.  The models evaluated here are the
-   definitions of Model/Prim.v that the theorems of Properties/C03.v are about; this file only
-   dispatches on the primitive and injects typed values into one universal value type. *)
+   definitions of Model/Prim.v for the code as it is now (impl_X / unprefixed), the ones the
+   theorems of Properties/C03.v are about; this file only dispatches on the primitive and injects
+   typed values into one universal value type. *)
 From Coq Require Import List NArith ZArith Bool.
 From Verif Require Import Base.Hex Base.Verdict Model.Prim.
 Import ListNotations.
@@ -44,10 +45,6 @@ Inductive op :=
 | OFShort                       (* WriteExtendedForgeShort / ReadExtendedForgeShort *)
 | OStrings | OVarInts | OProps | OUTF | OKey | OKeys | OMinKey.
 
-Record cfg := mkcfg { fx1 : bool; fx2 : bool; fx3 : bool; fx4 : bool; fx5 : bool }.
-Definition cfg_impl := mkcfg false false false false false.
-Definition cfg_spec := mkcfg true true true true true.
-
 (* value injections *)
 Definition as_z (v : val) : option Z := match v with VZ z => Some z | _ => None end.
 Definition as_by (v : val) : option bytes := match v with VBy b => Some b | _ => None end.
@@ -69,7 +66,7 @@ Definition of_prop (p : property) : val := VL [VBy (fst p); VBy (fst (snd p)); V
 Definition nat_of_w (w : N) : nat := N.to_nat w.
 
 (* WriteX: None when the value has the wrong shape for the op (harness error) *)
-Definition enc (c : cfg) (o : op) (v : val) : option (res bytes) :=
+Definition enc (o : op) (v : val) : option (res bytes) :=
   match o with
   | OVarInt => option_map (fun z => Ok (write_varint z)) (as_z v)
   | OBool => match v with VBool b => Some (Ok (write_bool b)) | _ => None end
@@ -81,8 +78,8 @@ Definition enc (c : cfg) (o : op) (v : val) : option (res bytes) :=
   | OUUIDInts => option_map (fun b => Ok (write_uuid_ints b)) (as_by v)
   | OString _ => option_map (fun b => Ok (write_string b)) (as_by v)
   | OBytes _ => option_map (fun b => Ok (write_bytes b)) (as_by v)
-  | OBytes17 ext => option_map (fun b => write_bytes17 (fx3 c) ext b) (as_by v)
-  | OFShort => option_map (fun z => Ok (write_fshort (fx3 c) (Z.to_N z))) (as_z v)
+  | OBytes17 ext => option_map (fun b => write_bytes17 ext b) (as_by v)
+  | OFShort => option_map (fun z => Ok (impl_write_fshort (Z.to_N z))) (as_z v)
   | OStrings => option_map (fun l => Ok (write_strings l)) (as_list as_by v)
   | OVarInts => option_map (fun l => Ok (write_varint_array l)) (as_list as_z v)
   | OProps => option_map (fun l => Ok (write_properties l)) (as_list as_prop v)
@@ -92,27 +89,27 @@ Definition enc (c : cfg) (o : op) (v : val) : option (res bytes) :=
   | OMinKey => option_map (fun k => Ok (write_minimal_key k)) (as_key v)
   end.
 
-Definition dec (c : cfg) (o : op) : dec_t val :=
+Definition dec (o : op) : dec_t val :=
   match o with
   | OVarInt => dmap VZ read_varint
   | OBool => dmap VBool read_bool
   | OU8 => dmap (fun n => VZ (Z.of_N n)) read_uint8
   | OI8 => dmap VZ read_int8
-  | OU w => dmap (fun n => VZ (Z.of_N n)) (read_uint (fx1 c) w)
-  | OI w => dmap VZ (read_int (fx1 c) w)
+  | OU w => dmap (fun n => VZ (Z.of_N n)) (impl_read_uint w)
+  | OI w => dmap VZ (read_int w)
   | OUUID => dmap VBy read_uuid
-  | OUUIDInts => dmap VBy (read_uuid_ints (fx1 c))
+  | OUUIDInts => dmap VBy impl_read_uuid_ints
   | OString max => dmap VBy (read_string_max max)
-  | OBytes max => dmap VBy (read_bytes_len (fx2 c) max)
-  | OBytes17 _ => dmap VBy (read_bytes17 (fx1 c) (fx2 c) (fx3 c))
-  | OFShort => dmap (fun n => VZ (Z.of_N n)) (read_fshort (fx1 c) (fx3 c))
+  | OBytes max => dmap VBy (impl_read_bytes_len max)
+  | OBytes17 _ => dmap VBy impl_read_bytes17
+  | OFShort => dmap (fun n => VZ (Z.of_N n)) impl_read_fshort
   | OStrings => dmap (fun l => VL (map VBy l)) read_string_array
   | OVarInts => dmap (fun l => VL (map VZ l)) read_varint_array
-  | OProps => dmap (fun l => VL (map of_prop l)) (read_properties (fx4 c))
-  | OUTF => dmap VBy (read_utf (fx1 c))
+  | OProps => dmap (fun l => VL (map of_prop l)) impl_read_properties
+  | OUTF => dmap VBy impl_read_utf
   | OKey => dmap of_key read_key
   | OKeys => dmap (fun l => VL (map of_key l)) read_key_array
-  | OMinKey => dmap of_key (read_minimal_key (fx5 c))
+  | OMinKey => dmap of_key impl_read_minimal_key
   end.
 
 (* ---------- domains of the encoders (the dom_T of the theorems, decidable form) ---------- *)
@@ -203,18 +200,18 @@ Definition to_obs (input : bytes) (r : res (val * bytes)) : obs :=
   | Err _ => ObsErr
   end.
 
-Definition enc_agrees (g : cfg) (c : case) : bool :=
+Definition enc_agrees (c : case) : bool :=
   match c_kind c with
   | KLen _ _ | KRaw _ => true
-  | _ => match enc g (c_op c) (c_val c), c_enc c with
+  | _ => match enc (c_op c) (c_val c), c_enc c with
          | Some (Ok e), Some e' => beq_bytes e e'
          | Some (Err _), None => true
          | _, _ => false
          end
   end.
 
-Definition agrees (g : cfg) (c : case) (input : bytes) : bool :=
-  enc_agrees g c && obs_eqb (c_dec c) (to_obs input (dec g (c_op c) input)).
+Definition agrees (c : case) (input : bytes) : bool :=
+  enc_agrees c && obs_eqb (c_dec c) (to_obs input (dec (c_op c) input)).
 
 (* ---------- the property's predicate on one observation ---------- *)
 
@@ -245,77 +242,15 @@ Definition holds (c : case) : bool :=
   | KRaw _ => true
   end.
 
-(* ---------- recorded findings: which configurations to try, and the trigger classes ---------- *)
+(* ---------- verdict ---------- *)
 
-Definition cfgs (o : op) : list cfg :=
-  match o with
-  | OU _ | OI _ | OUUIDInts | OUTF => [cfg_spec; mkcfg false true true true true]
-  | OBytes _ => [cfg_spec; mkcfg true false true true true]
-  | OBytes17 _ => [cfg_spec; mkcfg false true true true true; mkcfg true false true true true;
-                   mkcfg false false true true true; mkcfg true true false true true;
-                   mkcfg true false false true true]
-  | OFShort => [cfg_spec; mkcfg false true true true true; mkcfg true true false true true]
-  | OProps => [cfg_spec; mkcfg true true true false true]
-  | OMinKey => [cfg_spec; mkcfg true true true true false]
-  | _ => [cfg_spec]
-  end.
-
-Definition val_size (v : val) : N :=
-  match v with VBy b => len b | VZ z => Z.to_N z | _ => 0 end.
-
-(* finding 1: a fixed-width read met 0 < available < width and its padded value was accepted *)
-Definition trig1 (c : case) (input : bytes) : bool :=
-  match c_op c with
-  | OU w | OI w => (0 <? len input) && (len input <? w)
-  | OUUIDInts => (12 <? len input) && (len input <? 16)
-  | OUTF => beq_bytes input [0]
-  | OFShort | OBytes17 _ => len input =? 1       (* the 2-byte short, once it is read with ReadUint16 *)
-  | _ => false
-  end.
-(* finding 2: the single rd.Read of the array body met an empty reader with length 0, or fewer bytes than length *)
-Definition trig2 (g : cfg) (c : case) (input : bytes) : bool :=
-  let hdr := match c_op c with
-             | OBytes max => len_bytes max input
-             | OBytes17 _ => len_bytes17 (fx1 g) (fx3 g) input
-             | _ => Err EInvalid
-             end in
-  match hdr with
-  | Ok (n, r) => ((n =? 0) && (len r =? 0)) || ((0 <? len r) && (len r <? n))
-  | Err _ => false
-  end.
-(* finding 3: a 1.7 length that does not fit the single byte actually written / read *)
-Definition trig3 (c : case) : bool :=
-  match c_op c with
-  | OBytes17 _ | OFShort =>
-    match c_kind c with KLen l _ => (256 <=? l)%Z | _ => 256 <=? val_size (c_val c) end
-  | _ => false
-  end.
-(* finding 4: negative property count *)
-Definition trig4 (c : case) : bool :=
-  match c_op c, c_kind c with OProps, KLen l _ => (l <? 0)%Z | _, _ => false end.
-(* finding 5: minimal key with an explicit namespace *)
-Definition trig5 (c : case) : bool :=
-  match c_op c, c_kind c, as_key (c_val c) with
-  | OMinKey, KRound _, Some k => negb (beq_bytes (fst k) minecraft)
-  | _, _, _ => false
-  end.
-
-Definition trigger (g : cfg) (c : case) (input : bytes) : option N :=
-  if negb (fx3 g) && trig3 c then Some 3
-  else if negb (fx1 g) && trig1 c input then Some 1
-  else if negb (fx2 g) && trig2 g c input then Some 2
-  else if negb (fx4 g) && trig4 c then Some 4
-  else if negb (fx5 g) && trig5 c then Some 5
-  else None.
-
+(* Findings C03-1..5 are repaired in /repo: there is no tolerated deviation any more.  A case on
+   which the property's predicate is false is a violation (a recurrence of a repaired defect
+   included); the model is the model of today's code. *)
 Definition judge (c : case) : verdict :=
   match input_of c with
   | None => VMismatch
   | Some input =>
-    let cands := filter (fun g => agrees g c input) (cfgs (c_op c)) in
-    if holds c then (match cands with [] => VMismatch | _ => VOk end)
-    else match cands with
-         | [] => VViolation
-         | g :: _ => match trigger g c input with Some k => VKnown k | None => VViolation end
-         end
+    if holds c then (if agrees c input then VOk else VMismatch)
+    else VViolation
   end.
